@@ -1,1 +1,36 @@
-//! verif hook (child module): see /verif/hooks/verif.rs
+//! verif hook (child module of `futures_ordered_bounded`)
+use super::*;
+
+impl<T: Future> FuturesOrderedBounded<T> {
+    pub(crate) fn verif_from_parts(
+        inner: FuturesUnorderedBounded<OrderWrapper<T>>,
+        heap_cap: usize,
+        next_in: usize,
+        next_out: usize,
+    ) -> Self {
+        Self {
+            in_progress_queue: inner,
+            queued_outputs: BinaryHeap::with_capacity(heap_cap),
+            next_incoming_index: Wrapping(next_in),
+            next_outgoing_index: Wrapping(next_out),
+        }
+    }
+    /// park an out-of-turn output
+    pub fn verif_park(&mut self, index: usize, out: T::Output) {
+        self.queued_outputs.push(OrderWrapper { data: out, index });
+    }
+    /// (next_incoming_index, next_outgoing_index)
+    pub fn verif_counters(&self) -> (usize, usize) {
+        (self.next_incoming_index.0, self.next_outgoing_index.0)
+    }
+    pub fn verif_heap_len(&self) -> usize {
+        self.queued_outputs.len()
+    }
+    pub fn verif_heap_cap(&self) -> usize {
+        self.queued_outputs.capacity()
+    }
+    /// position of the k-th parked output (heap order) and a reference to it
+    pub fn verif_heap_at(&self, k: usize) -> Option<(usize, &T::Output)> {
+        self.queued_outputs.as_slice().get(k).map(|w| (w.index, &w.data))
+    }
+}
